@@ -321,15 +321,28 @@ func firstDiff(a, b string) string {
 	return fmt.Sprintf("...%s\n...%s", a[lo:hi(a)], b[lo:hi(b)])
 }
 
-var tmplPieces = []string{"plain", "r{{.PC_REPLICA_NUM}}", "{{.G1}}", "{{.L1}}-{{.PC_REPLICA_NUM}}", "{{.G2}}/{{.L1}}", "x {{.PC_REPLICA_NUM}} y {{.PC_REPLICA_NUM}}", "/d/{{.G1}}/{{.PC_REPLICA_NUM}}"}
+// L2 and L3 are never global: a process that does not define them renders "<no value>" / the
+// empty branch whatever its neighbours define.
+var tmplPieces = []string{"plain", "r{{.PC_REPLICA_NUM}}", "{{.G1}}", "{{.L1}}-{{.PC_REPLICA_NUM}}", "{{.G2}}/{{.L1}}", "x {{.PC_REPLICA_NUM}} y {{.PC_REPLICA_NUM}}", "/d/{{.G1}}/{{.PC_REPLICA_NUM}}",
+	"{{.L2}}", "w{{if .L3}} --debug{{end}}", "{{.L2}}-{{.G1}}-{{.PC_REPLICA_NUM}}"}
 
 func genTempl(t *rapid.T) TemplCase {
-	c := TemplCase{Vars: map[string]string{"G1": "gv", "G2": "7", "L1": "global-l1"}, Loads: 6}
-	n := pbt.Range(t, 1, 4)
+	c := TemplCase{Vars: map[string]string{}, Loads: 6}
+	for _, g := range [][2]string{{"G1", "gv"}, {"G2", "7"}, {"L1", "global-l1"}} {
+		if pbt.Pct(t, 75) {
+			c.Vars[g[0]] = g[1]
+		}
+	}
+	n := pbt.Range(t, 1, 5)
 	for i := 0; i < n; i++ {
 		p := TProc{Name: fmt.Sprintf("svc%d", i), Replicas: pbt.Pick(t, []int{0, 1, 2, 2, 3, 4, 10, 11}), Command: "run " + pbt.Pick(t, tmplPieces)}
-		if pbt.Pct(t, 50) {
-			p.Vars = map[string]string{"L1": pbt.Pick(t, []string{"lv", "local " + strconv.Itoa(i)})}
+		for _, l := range []string{"L1", "L2", "L3"} {
+			if pbt.Pct(t, 40) {
+				if p.Vars == nil {
+					p.Vars = map[string]string{}
+				}
+				p.Vars[l] = pbt.Pick(t, []string{"lv", "local " + strconv.Itoa(i)})
+			}
 		}
 		if pbt.Pct(t, 40) {
 			lt := pbt.Pick(t, []int{0, -3, 1, 7})
